@@ -172,7 +172,10 @@ func (p HopByHopExtensionHeader) ParseHopByHopExtensions() (ext map[int][]byte, 
 			pos = pos + int(buffer[1]) + 2
 		}
 
-		if pos >= len(data) {
+		if pos > len(data) { // the option runs past the options area
+			return nil, ErrParseFrame
+		}
+		if pos == len(data) {
 			break
 		}
 	}
